@@ -148,11 +148,25 @@ func c15Program(k int, xs, ys jast.Node) (jast.Node, string) {
 		// ... and the whole-array argument of $map for a scalar (a []float64)
 		return call("map", &jast.Num{V: 1000000}, lam([]string{"v", "i", "a"}, call("count", call("distinct",
 			&jast.Array{Items: []jast.Node{obj("k", v("a")), obj("k", lit(A{1000000.0})), obj("k", lit(A{1e-7}))}})))), "distinct-library-number-array"
+	case 14:
+		// functions as members: different functions are different values, the
+		// same function twice is one, and what is kept can still be called
+		f, g := v("f"), v("g")
+		blk := func(e jast.Node) jast.Node {
+			return &jast.Block{Exprs: []jast.Node{
+				&jast.Assign{Name: "f", Val: lam([]string{"x"}, &jast.Bin{Op: "+", L: v("x"), R: &jast.Num{V: 1}})},
+				&jast.Assign{Name: "g", Val: lam([]string{"x"}, &jast.Bin{Op: "*", L: v("x"), R: &jast.Num{V: 2}})}, e}}
+		}
+		return blk(&jast.Array{Items: []jast.Node{
+			call("map", call("distinct", &jast.Array{Items: []jast.Node{f, g, f, v("sum"), v("count"), v("sum")}}), lam([]string{"h"}, &jast.Call{Fn: v("h"), Args: []jast.Node{&jast.Num{V: 5}}})),
+			call("count", call("distinct", call("append", &jast.Array{Items: []jast.Node{
+				&jast.Array{Items: []jast.Node{f}}, &jast.Array{Items: []jast.Node{g}}, &jast.Array{Items: []jast.Node{f}}, &jast.Array{},
+				obj("k", v("sum")), obj("k", v("count")), obj("k", v("sum"))}}, xs)))}}), "distinct-functions"
 	}
 	return call("count", call("shuffle", xs)), "shuffle-count"
 }
 
-func c15NProg() int { return len(c15Callbacks) + 2*len(c15Preds) + 2*len(c15Folds) + 15 }
+func c15NProg() int { return len(c15Callbacks) + 2*len(c15Preds) + 2*len(c15Folds) + 16 }
 
 var c15Pool = []interface{}{1.0, 2.0, 2.0, 3.0, -1.0, 0.5, "1", "a", "a", "", true, false, A{1.0}, A{1.0}, A{A{1.0}}, A{}, O{"a": 1.0}, O{"a": 1.0}, O{"a": "1"}, O{}, 1e21,
 	// zero with and without sign inside containers (equal by value)
